@@ -119,7 +119,8 @@ fn b64(bytes: &[u8]) -> String {
   base64::encode(bytes)
 }
 
-const MALFORMED: [&str; 46] = [
+const MALFORMED: [&str; 47] = [
+  "tck_number_with_nul",
   "add_b64_other_spelling",
   "add_b64_short_text",
   "eval_token_soup",
@@ -247,10 +248,24 @@ fn builtin_on_odd_values(seed: u64) -> String {
   }
 }
 
-const ODD_CONTEXTS: [&str; 18] = [
+const ODD_CONTEXTS: [&str; 28] = [
   // a function that invokes itself for ever (an entry of a context literal sees itself)
   "{f: function(n) f(n + 1), s: string(f(1))}",
   "{f: function(n) if n < 0 then 0 else 1 + f(n + 1), s: string(f(1))}",
+  // an ordering function that is not an order, on more items than the standard library sorts by insertion
+  "{s: string(sort([1,0,2,0,3,2,3,2,1,0,0,2,0,2,0,1,1,2,1,0,0], function(a,b) a != b))}",
+  "{s: string(sort([1,0,2,0,3,2,3,2,1,0,0,2,0,2,0,1,1,2,1,0,0,5,4,3], function(a,b) modulo(a + b, 3) = 0))}",
+  // a number that is not a number among many numbers, as a second, as the length of a sublist
+  "{n: 10**6144*10 - 10**6144*10, s: string(median([0,n,14,0,7,14,0,7,14,0,n,14,0,7,14,0,7,14,0,7,14]))}",
+  "{n: 10**6144*10 - 10**6144*10, s: string(mode([0,n,14,0,7,14,0,7,14,0,n,14,0,7,14,0,7,14,0,7,14]))}",
+  "{n: 10**6144*10 - 10**6144*10, s: string(time(1, 0, n))}",
+  "{n: 10**6144*10 - 10**6144*10, s: string(time(1, 0, n, duration(\"PT1H\")))}",
+  "{s: string(sublist([1,2,3], 2, 18446744073709551615))}",
+  "{s: string(sublist([1,2,3], -1, 18446744073709551615))}",
+  // an iteration whose range ends at the largest integer the iterator counts in
+  "{s: string(count(for i in 9223372036854775807..9223372036854775807 return i))}",
+  // a NUL character in a text converted to a number
+  "{s: string(number(\"1\\u0000\", \".\", \",\"))}",
   // a name beginning with the part `in` where the variable of an iteration is expected
   "{s: string(for in+x in [1] return 1)}",
   "{s: string(some in-a in [1] satisfies true)}",
@@ -625,6 +640,17 @@ fn build_request(s: &Setup, r: &Value) -> Built {
           op: Op::EvalAny(model_name(m)),
           label: label.clone(),
         },
+        "tck_number_with_nul" => {
+          let xsd_type = ["xsd:decimal", "xsd:integer", "xsd:double"][(pu64(r, "n") % 3) as usize];
+          Built {
+          method: "POST",
+          path: "/tck/evaluate".into(),
+          content_type: js,
+          body: json!({"model": model_name(m), "invocable": "echo_n", "input": [{"name": "n", "value": {"simple": {"type": xsd_type, "text": "1\u{0}", "isNil": false}}}]}).to_string().into_bytes(),
+          op: Op::EvalAny(model_name(m)),
+          label: label.clone(),
+        }
+        }
         "tck_broken_json" => raw("POST", "/tck/evaluate", js, b"{\"model\": \"ma\", \"invocable\"".to_vec(), true),
         "unknown_route" => raw("POST", "/definitions/no-such-endpoint", js, b"{}".to_vec(), true),
         // error answers that quote several KiB of multi-byte text back (0..3 bytes of ASCII in front)
